@@ -3,6 +3,7 @@ CONSTANTS
   Threads = {1, 2}
   Names = {"b", "n"}
   Cons = {"n"}
+  Local = FALSE
   Variant = "tolerant"
 INVARIANT P_AsAlone
 INVARIANT P_LockFree
